@@ -113,7 +113,7 @@ class HtmlGenerator(BaseScreen):
                 else:
                     # undefined attributes use the default entry, as on the other screens
                     entry = self._palette.get(a, self._palette[None])
-                    aspec = entry[{1: 1, 16: 0, 88: 2, 256: 3}[self.colors]]
+                    aspec = entry[{1: 1, 16: 0, 88: 2, 256: 3, 2**24: 4}[self.colors]]
 
                 if y == cy and col <= cx:
                     run_width = str_util.calc_width(t_run, 0, len(t_run))
